@@ -145,7 +145,9 @@ FlatAt(N, e, k) == LET cc == PowerCoef(N, SpecCoef(N, e, k))
                    IN AllEqual([m \in 0..(N - 1) |-> IF m = 0 THEN cc[0] - N ELSE cc[m]])
 
 (* ---- exact zero test in Z[zeta_8] and Z[zeta_12] (cyclic shifts) -------------------- *)
-Count(D, ts) == [r \in 0..(D - 1) |-> Cardinality({i \in DOMAIN ts : ts[i] = r})]
+RECURSIVE CountAcc(_, _, _)
+CountAcc(ts, i, f) == IF i > Len(ts) THEN f ELSE CountAcc(ts, i + 1, [f EXCEPT ![ts[i]] = @ + 1])
+Count(D, ts) == CountAcc(ts, 1, [r \in 0..(D - 1) |-> 0])
 ZeroSum8(q)  == \A r \in 0..3 : q[r] = q[r + 4]                       \* zeta^4 = -1
 ZeroSum12(q) == LET a == [r \in 0..5 |-> q[r] - q[r + 6]]             \* zeta^6 = -1
                 IN \* zeta^4 = zeta^2 - 1, zeta^5 = zeta^3 - zeta ; basis 1, zeta, zeta^2, zeta^3
